@@ -38,7 +38,7 @@ REACH = {
 }
 SOPTS = dict(bytes_defaults=0.15, null_ns_inside=0.05)
 KNOWN_BYTES_DEFAULT = "bytes-default-used-verbatim"
-DOPTS = dict(omit_nullable=0.1)
+DOPTS = dict(omit_nullable=0.1, hints=0.12, extras=0.05)
 
 
 def plan(tier, seed):
